@@ -1487,6 +1487,24 @@ func (se *symExec) collapsible(b *ssa.BasicBlock) *collapseInfo {
 		}
 	}
 	if se.cfg.CollapsePure {
+		// short-circuit conditions (boolean phis at the join) carry path conditions: keep them
+		for _, in := range join.Instrs {
+			phi, ok := in.(*ssa.Phi)
+			if !ok {
+				break
+			}
+			if b, isB := phi.Type().Underlying().(*types.Basic); isB && b.Info()&types.IsBoolean != 0 {
+				allConst := true
+				for _, e := range phi.Edges {
+					if _, isC := e.(*ssa.Const); !isC {
+						allConst = false
+					}
+				}
+				if !allConst {
+					return ci
+				}
+			}
+		}
 		// values computed inside may only leave through phis of the join, which become opaque
 		for x := range region {
 			for _, in := range x.Instrs {
